@@ -35,6 +35,7 @@ ASSUMPTIONS = [
 ]
 SHARDS = {"quick": 16, "thorough": 16}
 MIN_REACH = {
+    "crops_named_by_a_relative_parent_dir": {"quick": 6, "thorough": 60},
     "scripts_generated": {"quick": 40, "thorough": 400},
     "script_executions": {"quick": 60, "thorough": 500},
     "programs_compiled": {"quick": 60, "thorough": 500},
@@ -71,7 +72,8 @@ def cases(ctx):
             B = rng.randint(1, 8) if rep else [3, 4, 2][idx % 3]
             ids_kind = rng.choice(["none", "none", "list", "list", "tuple", "single_list", "int"] if rep else ["none", "list"][idx % 2:idx % 2 + 1])
             c = {"scheduler": sch if rng.random() < 0.8 else sch.upper(), "mode": mode, "state": state, "B": B, "bs": rng.choice([1, 2]),
-                 "ids_kind": ids_kind, "idx": idx, "oseed": rng.randint(0, 10 ** 9), "via_method": rng.random() < 0.3}
+                 "ids_kind": ids_kind, "idx": idx, "oseed": rng.randint(0, 10 ** 9), "via_method": rng.random() < 0.3,
+                 "rel_parent": rng.random() < 0.3}
             yield c
             idx += 1
     for i in range(ctx.pick(6, 50)):
@@ -199,19 +201,30 @@ def run_case(ctx, case):
         opts["num_workers"] = 2
         opts["num_procs"] = 2
     intended = ([ids] if isinstance(ids, int) else list(ids)) if ids is not None else (allb if not pre else missing0)
+    cwd0 = os.getcwd()
     try:
         with quiet():
-            c2 = xyzpy.Crop(name=NAME, parent_dir=tmp)
+            pdir = tmp
+            if case.get("rel_parent"):
+                # the crop is named by a RELATIVE parent directory (as typed in a script run from the project folder); the
+                # generated script is later executed from somewhere else entirely
+                os.chdir(os.path.dirname(tmp))
+                pdir = os.path.basename(tmp) if case["idx"] % 2 else os.path.join(".", os.path.basename(tmp))
+                ctx.count("crops_named_by_a_relative_parent_dir")
+            c2 = xyzpy.Crop(name=NAME, parent_dir=pdir)
             if case["via_method"]:
                 script = getattr(c2, "gen_%s_script" % schl)(batch_ids=ids, mode=case["mode"], **opts)
             else:
                 script = c2.gen_cluster_script(sch, ids, mode=case["mode"], **opts)
     except Exception as e:
+        os.chdir(cwd0)
         ctx.violation(case, "gen_cluster_script(%r, %r, mode=%r, %s) raised %r" % (sch, ids, case["mode"], opts, e),
                       dict(sig, oracle="generation", **exc_sig(e)))
         ctx.rmtree(tmp)
         ctx.observe(case, nontrivial=False)
         return
+    finally:
+        os.chdir(cwd0)
     ctx.count("scripts_generated")
     if pre:
         ctx.count("partial_state_scripts")
